@@ -147,14 +147,28 @@ class World:
         if kn.get("cache_kib") and not plain:
             kw["memory_cache_mb"] = kn["cache_kib"] / 1024.0
         if self.read_only and not writable:
-            if self.ro_via_config:
-                cfg = {"path": kw["path"], "readonly": True}
-                if "metadata_path" in kw:
-                    cfg["metadata_path"] = kw["metadata_path"]
-                if "memory_cache_mb" in kw:
-                    cfg["memory_cache_mb"] = kw["memory_cache_mb"]
-                return FilesystemStorageBackend(config=cfg)
-            kw["read_only"] = True
+            how = getattr(self, "ro_how", None) or ("config" if self.ro_via_config else "argument")
+            cfg = {"path": kw["path"]}
+            if "metadata_path" in kw:
+                cfg["metadata_path"] = kw["metadata_path"]
+            if "memory_cache_mb" in kw:
+                cfg["memory_cache_mb"] = kw["memory_cache_mb"]
+            if how == "config":
+                be = FilesystemStorageBackend(config=dict(cfg, readonly=True))
+            elif how == "argument-over-config":
+                # the configuration says writable, the documented constructor override says read-only
+                be = FilesystemStorageBackend(config=dict(cfg, readonly=False), read_only=True)
+            elif how == "toggle":
+                be = FilesystemStorageBackend(**kw)
+                be.read_only = True
+            else:
+                be = FilesystemStorageBackend(**dict(kw, read_only=True))
+            if getattr(self, "ro_roundtrip", False) and "metadata_path" not in kw:
+                # the backend is handed on in dictionary form (as Environment.to_dict does) and rebuilt from it
+                from twosigma.memento.storage import StorageBackend
+                d = be.to_dict()
+                be = StorageBackend.create(d["type"], d)
+            return be
         return FilesystemStorageBackend(**kw)
 
     def roots(self):
@@ -385,7 +399,31 @@ def run_ops(W, ops, check, emit_log, model=None, ledger=None, lru=None, faults=N
             elif k == "forget_call":
                 _, fn, x = op
                 try:
-                    be.forget_call(W.ref(fn, x))
+                    flt = (faults or {}).get(str(i))
+                    if flt is not None and not W.read_only and not is_mem:
+                        # a reported I/O error inside the forget, then the caller tries again: once a forget has succeeded the
+                        # call is gone altogether (memento, custom metadata, listings), whatever the failed attempt left behind
+                        simfs.set_plan({flt["k"]: dict(flt, variant="error-before")})
+                        nfired = len(simfs.S.fired)
+                        try:
+                            be.forget_call(W.ref(fn, x))
+                            failed = False
+                        except OSError:
+                            failed = True
+                        simfs.set_plan({})
+                        if len(simfs.S.fired) > nfired:
+                            bump("io_errors_injected")
+                        if failed:
+                            bump("forget_failed_with_io_error")
+                            be.forget_call(W.ref(fn, x))
+                            for mk in META_KEYS:      # nothing of the call may answer any more
+                                gotm = be.read_metadata(W.ref(fn, x), mk)
+                                if gotm is not None:
+                                    bad("metadata-of-forgotten-call", op, {"i": i, "key": [fn, x, mk], "got": repr(gotm), "after": "failed forget, repeated"})
+                            if be.is_memoized(W.fns[fn].fn_reference(), W.ref(fn, x).arg_hash):
+                                bad("is-memoized", op, {"i": i, "key": [fn, x], "got": True, "via": "after repeated forget"}, via="after-failed-forget")
+                    else:
+                        be.forget_call(W.ref(fn, x))
                     if W.read_only:
                         bad("ro-forget-accepted", op, {"i": i})
                     if (fn, x) in model.d:
@@ -535,9 +573,15 @@ def run_ops(W, ops, check, emit_log, model=None, ledger=None, lru=None, faults=N
             if "dict" in check or "ro" in check:
                 got = sorted(set(r.qualified_name for r in be.list_functions()))
                 exp = sorted(W.qn(f) for f in model.live_fns())
-                if got != exp:
+                ghosts_allowed = bool(stats.get("forget_failed_with_io_error")) and not is_mem
+                if got != exp and not (ghosts_allowed and set(got) > set(exp)):
+                    # (after a forget that met a reported I/O error, objects it did not get to may stay behind and keep a
+                    # function directory alive: such a function may be listed although it has no calls left - outside every
+                    # statement; a LIVE function that is missing from the listing is still a violation)
                     bad("list-functions", op, {"i": i, "got": got, "exp": exp},
                         diff="superset" if set(got) > set(exp) else "subset" if set(got) < set(exp) else "other")
+                elif got != exp:
+                    bump("note:ghost_function_listed_after_failed_forget")
             if k in ("restart", "sweep") or i == len(ops) - 1:
                 # full sweep: nothing forgotten answers again, everything live is found and reads its last value
                 if "dict" in check or "ro" in check:
@@ -908,3 +952,17 @@ class LruLaws:
         order = tuple(sorted(((self.certain.get(key, 0)), 1 if e.has_value else 0) for key, e in now.items()))
         self.states.add((len(now), tuple(r for _, r in order)))
         self.stats["abstract_states"] = len(self.states)
+
+
+def shrink_ops_with_faults(case, same, budget_s):
+    """ddmin over (op, fault) pairs, so that a fault stays attached to its operation when others are dropped."""
+    pairs = [(op, (case.get("faults") or {}).get(str(i))) for i, op in enumerate(case["ops"])]
+
+    def build(ps):
+        c = dict(case)
+        c["ops"] = [p[0] for p in ps]
+        if case.get("faults") is not None:
+            c["faults"] = {str(i): p[1] for i, p in enumerate(ps) if p[1] is not None}
+        return c
+    ps = core.ddmin_list(pairs, lambda cand: same(build(cand)), budget_s=budget_s, min_len=1)
+    return build(ps)
